@@ -7,10 +7,8 @@ class sources(DataStreamProcessor):
 
     def __init__(self, *sources):
         super().__init__()
-        self.sources: DataStream = [
-            Flow(s).datastream()
-            for s in sources
-        ]
+        self.source_specs = sources
+        self.sources = []
 
     def process_resources(self, resources):
         yield from super().process_resources(resources)
@@ -21,6 +19,12 @@ class sources(DataStreamProcessor):
 
     def process_datapackage(self, dp: Package):
         super().process_datapackage(dp)
+        # the source streams are consumed by a run: open them per run, so that running the
+        # same flow again yields all their rows again (and not just the inference sample)
+        self.sources = [
+            Flow(s).datastream()
+            for s in self.source_specs
+        ]
         descriptor = dp.descriptor
         source: DataStream
         for source in self.sources:
